@@ -226,14 +226,28 @@ pub struct Hooks<'a> {
 
 static HOOK_ONCE: std::sync::Once = std::sync::Once::new();
 
+thread_local! {
+    /// set while engine B (shuttle) executes on this thread: library panics are recorded by the
+    /// caller, not printed
+    pub static QUIET: std::cell::Cell<bool> = const { std::cell::Cell::new(false) };
+}
+
 pub fn install_panic_hook() {
     HOOK_ONCE.call_once(|| {
+        // shuttle installs a process-wide panic hook on first use; make that happen now so that
+        // ours ends up outermost and scripted panics stay silent
+        {
+            let mut cfg = shuttle::Config::new();
+            cfg.failure_persistence = shuttle::FailurePersistence::None;
+            cfg.silence_warnings = true;
+            shuttle::Runner::new(shuttle::scheduler::RandomScheduler::new_from_seed(1, 1), cfg).run(|| {});
+        }
         let prev = std::panic::take_hook();
         std::panic::set_hook(Box::new(move |info| {
-            if world::is_active() {
-                if info.payload().downcast_ref::<SimPanic>().is_some() {
-                    return;
-                }
+            if info.payload().downcast_ref::<SimPanic>().is_some() {
+                return;
+            }
+            if world::is_active() || QUIET.with(|q| q.get()) {
                 let msg = if let Some(s) = info.payload().downcast_ref::<&str>() {
                     s.to_string()
                 } else if let Some(s) = info.payload().downcast_ref::<String>() {
